@@ -2,6 +2,7 @@
   C06 — kill() pre-empts the mailbox and never blocks.
 -/
 import Rsactor.Inv.KillBound
+import Rsactor.Inv.Progress
 import Rsactor.Ties.select_order
 import Rsactor.Ties.kill_stop_shape
 import Rsactor.Ties.lifecycle_arms
@@ -56,6 +57,15 @@ theorem one_further_handler_reachable :
       .issue 0 { kind := .kill }, .pollMail] = some s ∧ (C06.kb s.ev).starts = 1 := by
   refine ⟨_, rfl, ?_⟩; decide
 
+
+/-- `killed_actor_does_not_idle`: in a state in which the runtime has nothing left to run, an actor whose kill signal is
+    still pending is not parked in its select and not waiting for mail: it has ended or is inside the hook that was in
+    progress (which waits for its own external event).  Together with `kill_not_lost` and `kill_prompt` this is the
+    progress half of "runs on_stop(killed=true) as soon as the hook in progress finishes". -/
+theorem killed_actor_does_not_idle (s : Sys) (hq : quiescent s) (hk : s.termSlot = true) :
+    s.pc = .ended ∨
+    (s.gatePermits = 0 ∧ (s.pc = .starting ∨ (∃ m k, s.pc = .inHandler m k) ∨ ∃ a b c, s.pc = .stopping a b c)) :=
+  quiescent_due_has_ended s hq (Or.inl hk)
 
 /-! ### ties to the source: shape lemmas about the tables regenerated from /repo on every run -/
 -- @tie Rsactor.Ties.select_order
